@@ -245,14 +245,15 @@ def run_batch(harnesses, jobs=None, extra=None, timeout=None, use_cache=True):
                 res.update(r); raws.append(raw); cmds.append(cmd); wall += w
             return res, "\n".join(raws), " ; ".join(cmds), wall
         jobs = classes[0] if classes else 16
-    cmd = ["cargo", "kani"] + KANI_FLAGS + ["-Z", "unstable-options", "--harness-timeout", f"{PER_HARNESS_TIMEOUT_S}s",
+    per_harness = PER_HARNESS_TIMEOUT_S * (4 if any(h.tier == "thorough" for h in harnesses) else 1)
+    cmd = ["cargo", "kani"] + KANI_FLAGS + ["-Z", "unstable-options", "--harness-timeout", f"{per_harness}s",
                                             "-j", str(jobs), "--output-format", "terse", "--exact"]
     for h in harnesses:
         cmd += ["--harness", h.full]
     if extra:
         cmd += extra
     if timeout is None:
-        timeout = 600 + PER_HARNESS_TIMEOUT_S * (1 + len(harnesses) // max(1, jobs))
+        timeout = 600 + per_harness * (1 + len(harnesses) // max(1, jobs))
     with _Lock():
         rc, out, wall = sh(cmd, cwd=REPO, env=_kani_env(), timeout=timeout)
     return parse_terse(out, harnesses, rc), out, " ".join(cmd), wall
